@@ -2118,7 +2118,8 @@ class ReferenceManager:
             newrefs.append(impl.own_refs[name])
 
         self._valid_to_refs.pop(prev_id)
-        self._valid_to_refs[id(new_value)] = newrefs
+        # new_value may already be bound to other refs
+        self._valid_to_refs.setdefault(id(new_value), []).extend(newrefs)
 
     @staticmethod
     def _impl_change_ref(impl, name, value, *refmode):
